@@ -44,7 +44,10 @@ def q(f):
         return ('exc', type(e).__name__)
 
 
-def snapshot(p, order=0):
+PROBE = sp.Line(0.5 - 3j, 2.5 + 3j)
+
+
+def snapshot(p, order=0, extras=False):
     """order: which query comes first (a query may refresh what a later one reads): 0 length, 1 point, 2 T2t, 3 t2T"""
     out = {}
     out['len'] = q(lambda: len(p))
@@ -67,6 +70,20 @@ def snapshot(p, order=0):
     out['t2T(0,.5)'] = q(lambda: p.t2T(0, 0.5))
     for i in range(1, min(len(p), 5)):
         out['t2T(%d,.25)' % i] = q(lambda: p.t2T(i, 0.25))
+    if extras:
+        # the remaining public queries of Path (an exception - e.g. on an empty or discontinuous path - must be the same exception on both sides)
+        out['ilength'] = q(lambda: p.ilength(0.4 * p.length()))
+        out['unit_tangent'] = q(lambda: p.unit_tangent(0.3))
+        out['normal'] = q(lambda: p.normal(0.3))
+        out['derivative'] = q(lambda: p.derivative(0.3))
+        out['radialrange'] = q(lambda: tuple(tuple(x) for x in p.radialrange(1 + 2j)))
+        out['intersect'] = q(lambda: tuple((round(float(a_[0]), 9), round(float(b_[0]), 9)) for a_, b_ in p.intersect(PROBE)))
+        out['cropped'] = q(lambda: p.cropped(0.2, 0.7).length())
+        out['reversed'] = q(lambda: p.reversed().point(0.3))
+        out['continuous_subpaths'] = q(lambda: tuple(len(x) for x in p.continuous_subpaths()))
+        out['isclosed'] = q(p.isclosed)
+        out['area'] = q(p.area)
+        out['repr'] = q(lambda: repr(p))
     return out
 
 
@@ -79,14 +96,15 @@ def close(a, b, tol=1e-12):
     if isinstance(x, (tuple, list)) and isinstance(y, (tuple, list)):
         return len(x) == len(y) and all(close(('ok', u), ('ok', v), tol) for u, v in zip(x, y))
     if isinstance(x, (int, float, complex)) and isinstance(y, (int, float, complex)) and not isinstance(x, bool):
-        return abs(x - y) <= tol * max(1.0, abs(x), abs(y))
+        return x == y or abs(x - y) <= tol * max(1.0, abs(x), abs(y))       # (equal infinities are equal)
     return x == y
 
 
 def compare_fresh(ck, p, hist_prefix, mode, cubic, extra_key=''):
     """every query on the mutated object vs a newly constructed Path of the current segments"""
     fresh = sp.Path(*[s for s in p])
-    a, b = snapshot(p), snapshot(fresh)
+    ex_ = len(hist_prefix) % 5 == 0
+    a, b = snapshot(p, 0, ex_), snapshot(fresh, 0, ex_)
     bad = [k for k in a if not close(a[k], b[k])]
     try:
         eq = (p == fresh) and not (p != fresh)
